@@ -481,7 +481,7 @@ func main() {
 				rep.FailingInputFound = true
 			}
 			if strings.Contains(impl[i], "MUTATED-ARG") || strings.Contains(impl[i], "panic") || strings.Contains(impl[i], "timeout") ||
-				strings.Contains(impl[i], "true-err") || strings.Contains(impl[i], "false-nil") || strings.Contains(impl[i], "STRING-MISMATCH") || strings.Contains(impl[i], "HISTORY-DEPENDENT") {
+				strings.Contains(impl[i], "true-err") || strings.Contains(impl[i], "false-nil") || strings.Contains(impl[i], "STRING-MISMATCH") || strings.Contains(impl[i], "HISTORY-DEPENDENT") || strings.Contains(impl[i], "RESULT-OF-AN-EARLIER-CALL-CHANGED") {
 				rep.FailingInputFound = true // the answer itself violates a property (C10, C12, C13, C15)
 			}
 			rep.Mismatches = append(rep.Mismatches, mm)
@@ -535,7 +535,7 @@ func main() {
 		case strings.Contains(m.Kind, "spec") || strings.HasPrefix(m.Kind, "leak") || strings.Contains(m.Kind, "crash") || m.Kind == "retained-string-changed":
 			return 0
 		case strings.Contains(m.Impl, "panic") || strings.Contains(m.Impl, "timeout") || strings.Contains(m.Impl, "MUTATED-ARG") ||
-			strings.Contains(m.Impl, "true-err") || strings.Contains(m.Impl, "false-nil") || strings.Contains(m.Impl, "STRING-MISMATCH") || strings.Contains(m.Impl, "HISTORY-DEPENDENT"):
+			strings.Contains(m.Impl, "true-err") || strings.Contains(m.Impl, "false-nil") || strings.Contains(m.Impl, "STRING-MISMATCH") || strings.Contains(m.Impl, "HISTORY-DEPENDENT") || strings.Contains(m.Impl, "RESULT-OF-AN-EARLIER-CALL-CHANGED"):
 			return 0
 		}
 		return 1
